@@ -303,6 +303,21 @@ func genHP(rng *rand.Rand, rep string, length int) (ops []hpOp) {
 	return ops
 }
 
+// oneHP generates and runs one hash-prefix history and shrinks it when it
+// fails.
+func oneHP(r *hlib.Result, m *hlib.Model, rng *rand.Rand, rep string, capn, length int) (fail string) {
+	ops := genHP(rng, rep, length)
+	nv, nd := len(r.Violations), len(r.Disagreements)
+	fail = runHP(r, m, rep, capn, ops, true)
+	if fail != "" {
+		min := hlib.Shrink(ops, func(c []hpOp) bool { return hpWellFormed(c) && runHP(r, m, rep, capn, c, false) == fail })
+		r.Violations, r.Disagreements = r.Violations[:nv], r.Disagreements[:nd]
+		runHP(r, m, rep, capn, min, true)
+	}
+
+	return fail
+}
+
 func hashPrefixCampaign(o *hlib.Opts, r *hlib.Result, m *hlib.Model) {
 	rng := o.Rand("hashprefix")
 	n := 400
@@ -312,12 +327,7 @@ func hashPrefixCampaign(o *hlib.Opts, r *hlib.Result, m *hlib.Model) {
 	for i := 0; i < n; i++ {
 		rep := []string{"ip4", "host", "ip6", "host"}[i%4]
 		capn := []int{1, 2, 100}[rng.IntN(3)]
-		ops := genHP(rng, rep, 10+rng.IntN(40))
-		fail := runHP(r, m, rep, capn, ops, true)
-		if fail != "" {
-			min := hlib.Shrink(ops, func(c []hpOp) bool { return hpWellFormed(c) && runHP(r, m, rep, capn, c, false) == fail })
-			runHP(r, m, rep, capn, min, true)
-		}
+		oneHP(r, m, rng, rep, capn, 10+rng.IntN(40))
 	}
 	if o.Thorough() {
 		exhaustiveHP(r, m)
@@ -507,7 +517,7 @@ func runHP(r *hlib.Result, m *hlib.Model, rep string, capn int, ops []hpOp, reco
 			s = append(s, op.String())
 		}
 
-		return map[string]any{"campaign": "hashprefix", "replacement": rep, "cache_count": capn, "ops": s}
+		return withNote(map[string]any{"campaign": "hashprefix", "replacement": rep, "cache_count": capn, "ops": s})
 	}
 	for _, ob := range seen {
 		if ob.tok == "none" {
